@@ -152,6 +152,7 @@ public:
             m_unbuf_recv_cv.notify_all();
         } else {
             // Buffered: wake up all waiting threads via semaphore
+            PHOTON_VERIF_SP(PHOTON_VERIF_SP_ATOMIC, this);
             int senders = m_senders_waiting.load(std::memory_order_acquire);
             int receivers = m_receivers_waiting.load(std::memory_order_acquire);
             if (senders > 0) m_send_sem.signal(senders);
@@ -267,6 +268,7 @@ private:
             // Try to push (lock-free)
             if (m_queue->read_available() < m_capacity && m_queue->push(ptr)) {
                 // Notify waiting receiver
+                PHOTON_VERIF_SP(PHOTON_VERIF_SP_ATOMIC, this);
                 if (m_receivers_waiting.load(std::memory_order_acquire) > 0) {
                     m_recv_sem.signal(1);
                 }
@@ -280,6 +282,7 @@ private:
                 return false;
             }
 
+            PHOTON_VERIF_SP(PHOTON_VERIF_SP_ATOMIC, this);
             m_senders_waiting.fetch_add(1, std::memory_order_acq_rel);
             int ret = m_send_sem.wait(1, timeout.timeout_us());
             m_senders_waiting.fetch_sub(1, std::memory_order_acq_rel);
@@ -299,6 +302,7 @@ private:
                 value = std::move(*ptr);
                 delete ptr;
                 // Notify waiting sender
+                PHOTON_VERIF_SP(PHOTON_VERIF_SP_ATOMIC, this);
                 if (m_senders_waiting.load(std::memory_order_acquire) > 0) {
                     m_send_sem.signal(1);
                 }
@@ -314,6 +318,7 @@ private:
                 return false;
             }
 
+            PHOTON_VERIF_SP(PHOTON_VERIF_SP_ATOMIC, this);
             m_receivers_waiting.fetch_add(1, std::memory_order_acq_rel);
             int ret = m_recv_sem.wait(1, timeout.timeout_us());
             m_receivers_waiting.fetch_sub(1, std::memory_order_acq_rel);
